@@ -16,6 +16,15 @@ Sources of AGP text:
   d. the pretext-to-asm command with FASTA output (companion .agp against the written .fa; the input cache
      .agp against the input) and with AGP output
   e. the asm-format command reformatting an AGP written here (a share of the assemblies of a.)
+  f. format_agp on assemblies whose scaffold objects have a history: "the scaffold's length" of the statement is what
+     Scaffold.length (and, summed, Assembly.length) answers at the moment the AGP is written, whatever was done to
+     the object before.  A scaffold is taken through every short sequence of the mutators the code base uses -
+     add_row(), append_scaffold() with and without a gap, direct edits of .rows (extend, insert, pop, item and slice
+     assignment, deletion, rebinding: what OverlapResult's trimming, Scaffold.reverse() and FastaIndex.load_assembly
+     do), reverse(), and Assembly.add_scaffold() / edits of .scaffolds - and after every step (or after a chosen
+     subset of the steps) the assembly is formatted and measured: the rows written are the rows the object holds now
+     (mirrored here in a plain list), the last object end equals their total, equals Scaffold.length read at that
+     moment, and the object ends sum to Assembly.length.
 """
 
 import contextlib
@@ -26,11 +35,12 @@ import random
 
 from tola.assembly.assembly import Assembly
 from tola.assembly.format import format_agp
+from tola.assembly.scaffold import Scaffold
 from tola.fasta.index import FastaIndex
 from tola.assembly.scripts.pretext_to_asm import write_assembly
 
 from . import fasta_gen as G
-from .common import Collector, scaffold_from
+from .common import Collector, row_from, scaffold_from
 
 POOL = [
     ["F", "c1", 1, 1, 1, []],
@@ -151,8 +161,11 @@ def record_lengths_of(data):
     return {h.split()[0] if h.split() else h: sum(map(len, lines)) for h, lines in records}, [h for h, _ in records]
 
 
-def check_cache(case, path, bs, warm):
-    """b. the .agp written next to a FASTA file by auto_load()"""
+def check_cache(case, path, bs, warm, may_reject=False):
+    """
+    b. the .agp written next to a FASTA file by auto_load().  may_reject: the file is not well formed (a record
+    name occurs twice), so an error is an allowed outcome - but an .agp that does get written is judged
+    """
     case.write(path)
     fi = FastaIndex(path, bs)
     try:
@@ -165,14 +178,17 @@ def check_cache(case, path, bs, warm):
                 fi.auto_load()
                 fi.write_assembly()
         except Exception as e:  # noqa: BLE001
-            return [f"auto_load raised {e!r} on a well-formed FASTA"]
+            return [] if may_reject else [f"auto_load raised {e!r} on a well-formed FASTA"]
         agp = pathlib.Path(str(path) + ".agp")
         if not agp.exists():
             return ["no .agp cache written next to the FASTA"]
         expected = [(r.name, len(r.seq), None) for r in case.records]
         lengths = {r.name: len(r.seq) for r in case.records}
         code = {sc.name: sc.length for sc in fi.assembly.scaffolds}
-        return check_agp_against(agp.read_text(), expected, record_lengths=lengths, code_lengths=code, what=".agp cache")
+        msgs = check_agp_against(agp.read_text(), expected, record_lengths=lengths, code_lengths=code, what=".agp cache")
+        if may_reject:
+            msgs.sort(key=lambda m: "hole or overlap" not in m)  # the coordinate clause first
+        return msgs
     finally:
         close_index(fi)
         G.remove_with_caches(path)
@@ -237,6 +253,149 @@ def check_cli(tmp, case, pretext_text, output):
     return msgs, n_obj
 
 
+# ---- f. scaffolds with a history
+# one step = [mutator, arguments...]; row specs as in POOL
+HISTORY_OPS = [
+    ["add_row", ["F", "c1", 5, 12, -1, ["Painted"]]],
+    ["add_row", ["G", 200, "contig"]],
+    ["append_scaffold", [["F", "c2", 100, 1099, 0, []], ["G", 1, "scaffold"], ["F", "c.3", 7, 7, -1, []]], None],
+    ["append_scaffold", [["F", "c1", 1, 1, 1, []]], ["G", 100, "scaffold"]],
+    ["rows.extend", [["G", 10, "scaffold"], ["F", "c5", 1, 50, 1, []]]],
+    ["rows.insert", 0, ["F", "c9", 3, 4, 1, []]],
+    ["rows.pop", -1],
+    ["rows.pop", 0],
+    ["rows[i]=", -1, ["F", "c7", 11, 13, -1, ["Cut"]]],
+    ["rows[i:j]=", 1, 3, [["F", "c8", 1, 1000, 1, []]]],
+    ["del rows[i:j]", 1, 2],
+    ["rows=", [["F", "c4", 1, 10, 1, []], ["G", 5, "scaffold"], ["F", "c4", 16, 40, 1, []]]],
+    ["rows+=", [["F", "c6", 2, 3, 0, []]]],
+    ["reverse"],
+    ["asm.add_scaffold", [["F", "x1", 1, 77, 1, []]]],
+    ["asm.scaffolds.insert", 0, [["F", "x2", 1, 5, 1, []], ["G", 3, "scaffold"]]],
+    ["asm.scaffolds.pop", 0],
+]
+HISTORY_STARTS = [
+    [],
+    [["F", "s1", 1, 300, 1, []], ["G", 200, "scaffold"], ["F", "s1", 501, 800, 1, []]],
+]
+
+
+def reversed_specs(specs):
+    """what Scaffold.reverse() denotes: rows in opposite order, each fragment on the other strand (unknown stays unknown)"""
+    return [[s[0], s[1], s[2], s[3], -s[4], s[5]] if s[0] == "F" else s for s in specs[::-1]]
+
+
+def check_history(start, ops, observe):
+    """
+    f. -> messages.  start: row specs the scaffold is constructed with; ops: steps; observe[i]: format and measure
+    after step i (observe[0]: right after construction); the state after the last step is always observed
+    """
+    model = {"other": [POOL[2], POOL[5]], "Scaffold_1": [*start]}  # name -> row specs, in assembly order
+    sc = scaffold_from("Scaffold_1", start)
+    asm = Assembly("a", header=["made by c06"], scaffolds=[scaffold_from("other", model["other"]), sc])
+    extra = 0
+    done = []
+
+    def look():
+        out = io.StringIO()
+        try:
+            format_agp(asm, out)
+            code = {x.name: x.length for x in asm.scaffolds}
+            asm_length = asm.length
+        except Exception as e:  # noqa: BLE001
+            return [f"format_agp / length raised {e!r}"]
+        expected = [(n, sum(G.spec_length(x) for x in specs), specs) for n, specs in model.items() if specs]
+        msgs = check_agp_against(out.getvalue(), expected, code_lengths=code, what="format_agp")
+        objects, _ = G.parse_agp_text(out.getvalue())
+        ends = sum(int(rows[-1]["cols"][2]) for _, rows in objects)
+        if ends != asm_length:
+            msgs.append(f"format_agp: the last object ends sum to {ends}, Assembly.length is {asm_length}")
+        return msgs
+
+    for i in range(len(ops) + 1):
+        if i:
+            op = ops[i - 1]
+            m = model["Scaffold_1"]
+            kind = op[0]
+            if kind == "add_row":
+                sc.add_row(row_from(op[1]))
+                m.append(op[1])
+            elif kind == "append_scaffold":
+                gap = row_from(op[2]) if op[2] else None
+                if gap is not None and m:
+                    m.append(op[2])  # "joined with a gap" unless the scaffold is still empty
+                sc.append_scaffold(scaffold_from("piece", op[1]), gap)
+                m.extend(op[1])
+            elif kind == "rows.extend":
+                sc.rows.extend(row_from(x) for x in op[1])
+                m.extend(op[1])
+            elif kind == "rows+=":
+                sc.rows += [row_from(x) for x in op[1]]
+                m += op[1]
+            elif kind == "rows.insert":
+                sc.rows.insert(op[1], row_from(op[2]))
+                m.insert(op[1], op[2])
+            elif kind == "rows.pop":
+                if not m:
+                    return None  # nothing to remove: not a history
+                sc.rows.pop(op[1])
+                m.pop(op[1])
+            elif kind == "rows[i]=":
+                if not m:
+                    return None
+                sc.rows[op[1]] = row_from(op[2])
+                m[op[1]] = op[2]
+            elif kind == "rows[i:j]=":
+                sc.rows[op[1] : op[2]] = [row_from(x) for x in op[3]]
+                m[op[1] : op[2]] = op[3]
+            elif kind == "del rows[i:j]":
+                del sc.rows[op[1] : op[2]]
+                del m[op[1] : op[2]]
+            elif kind == "rows=":
+                sc.rows = [row_from(x) for x in op[1]]
+                m[:] = op[1]
+            elif kind == "reverse":
+                new = sc.reverse()
+                asm.scaffolds[[x is sc for x in asm.scaffolds].index(True)] = new
+                sc = new
+                m[:] = reversed_specs(m)
+            elif kind == "asm.add_scaffold":
+                extra += 1
+                asm.add_scaffold(scaffold_from(f"extra_{extra}", op[1]))
+                model[f"extra_{extra}"] = op[1]
+            elif kind == "asm.scaffolds.insert":
+                extra += 1
+                asm.scaffolds.insert(op[1], scaffold_from(f"extra_{extra}", op[2]))
+                model = dict([*list(model.items())[: op[1]], (f"extra_{extra}", op[2]), *list(model.items())[op[1] :]])
+            elif kind == "asm.scaffolds.pop":
+                if asm.scaffolds[op[1]] is sc or len(asm.scaffolds) < 2:
+                    return None
+                gone = asm.scaffolds.pop(op[1])
+                del model[gone.name]
+            else:
+                raise ValueError(kind)
+            done.append(f"{kind}({op[1]})" if kind == "rows.pop" else kind)
+        if i == len(ops) or observe[i]:
+            if not model["Scaffold_1"]:
+                if i == len(ops):
+                    return None  # an object without rows has no lines in an AGP file: nothing to judge
+                _ = sc.length, asm.length  # the length is still asked for
+                continue
+            msgs = look()
+            if msgs:
+                seen = [j for j in range(i) if observe[j]]
+                how = f"scaffold constructed with {len(start)} rows" + (f", then {' -> '.join(done)}" if done else "")
+                points = ", ".join("after construction" if j == 0 else f"after step {j}" for j in seen)
+                when = f"already formatted and measured {points}; now, after step {i}" if seen else f"formatted and measured for the first time, after step {i}"
+                return [f"{how} ({when}): {x}" for x in msgs]
+    return []
+
+
+def history_scripts(max_ops):
+    for n in range(1, max_ops + 1):
+        yield from itertools.product(range(len(HISTORY_OPS)), repeat=n)
+
+
 def replay(inp):
     with G.quiet_logging(), G.workdir() as d:
         kind = inp["kind"]
@@ -244,8 +403,10 @@ def replay(inp):
             m = check_format([(n, s) for n, s in inp["scaffolds"]])
         elif kind == "asm-format":
             m = check_asm_format(d, [(n, s) for n, s in inp["scaffolds"]], inp["to_file"])
+        elif kind == "history":
+            m = check_history(inp["start"], inp["ops"], inp["observe"]) or []
         elif kind == "cache":
-            m = check_cache(G.FastaCase.from_spec(inp["case"]), d / "r.fa", inp["buffer"], inp["warm"])
+            m = check_cache(G.FastaCase.from_spec(inp["case"]), d / "r.fa", inp["buffer"], inp["warm"], inp.get("may_reject", False))
         elif kind == "pair":
             m = check_pair(G.FastaCase.from_spec(inp["case"]), d, inp["buffer"], [(n, s) for n, s in inp["scaffolds"]])
         else:
@@ -294,6 +455,38 @@ def run(tier, seed, **opts):
                     col.case(("asm-format", to_file, k % 5 == 0, combo), nontrivial=n > 1)
             if col.full:
                 break
+        # ---- f
+        max_ops = 2 if quick else 4  # 4 steps: from the 3-row scaffold, measured after every step only
+        n_hist = 0
+
+        def history(start, ops, observe, sample=False):
+            nonlocal n_hist
+            msgs = check_history(start, ops, observe)
+            if msgs is None:
+                return
+            n_hist += 1
+            inp = {"kind": "history", "start": start, "ops": ops, "observe": observe}
+            if msgs:
+                col.fail(msgs[0], inp)
+            col.case(("history", len(start), repr(ops), tuple(observe)), sample=inp if sample else None)
+
+        limit_f = len(col.failures) + 6
+        for si, start in enumerate(HISTORY_STARTS):
+            for script in history_scripts(max_ops):
+                if col.full or len(col.failures) >= limit_f:
+                    break
+                if len(script) == 4 and si == 0:
+                    break
+                ops = [HISTORY_OPS[j] for j in script]
+                # measured after every step (a value kept from any earlier moment shows), and only once before the last step
+                history(start, ops, [True] * len(ops), sample=script == (2, 6) and si == 1)
+                if 1 < len(ops) < 4:
+                    history(start, ops, [False] * (len(ops) - 1) + [True])
+        for k in range(300 if quick else 20_000):
+            if col.full or len(col.failures) >= limit_f:
+                break
+            ops = [rng.choice(HISTORY_OPS) for _ in range(rng.randint(3, 9))]
+            history(rng.choice(HISTORY_STARTS), ops, [rng.random() < 0.5 for _ in ops])
         # ---- b
         path = d / "t.fa"
         n = 0
@@ -327,6 +520,20 @@ def run(tier, seed, **opts):
             if msgs:
                 col.fail(msgs[0], inp)
             col.case(("cache", case.key(), bs, warm))
+        # files in which a record name occurs twice (next to each other or not): an error is the expected outcome; what
+        # must not happen is an .agp cache in which an object restarts or does not match a record
+        dup = [G.Rec("x", b"ACGTNNAC", b" one"), G.Rec("x", b"GGNCC"), G.Rec("y", b"TTTT"), G.Rec("x", b"nACGTACGTACg", b"\tthree")]
+        for ri, recs in enumerate(([dup[0], dup[1]], [dup[2], dup[0], dup[1]], [dup[0], dup[1], dup[2]], [dup[0], dup[2], dup[3]], [dup[0], dup[1], dup[3]])):
+            for w, eol, fin in G.layouts((3, 60)):
+                if col.full:
+                    break
+                case = G.FastaCase(recs, w, eol, fin)
+                bs = (1, 3, 250_000)[(ri + w) % 3]
+                msgs = check_cache(case, path, bs, False, may_reject=True)
+                inp = {"kind": "cache", "case": case.spec(), "buffer": bs, "warm": False, "may_reject": True}
+                if msgs:
+                    col.fail(msgs[0] + " (a FASTA file with a repeated record name was accepted)", inp)
+                col.case(("cache-dup", case.key(), bs))
         # ---- c
         case = G.FastaCase([G.Rec("s1", b"AcgRtNnYKtGCaa", b" d"), G.Rec("s2", b"NNtTGmcNN")], 4, b"\n", True)
         for bs in range(1, 7 if quick else 12):
@@ -371,6 +578,7 @@ def run(tier, seed, **opts):
             f"a: {len(POOL)}-row pool, scaffolds of 1..{max_rows} rows; b: masks to length {max_mask} x 24 layouts + {100 if quick else 6000} random files; "
             f"c: buffers 1..{6 if quick else 11}, gaps 0..3*buffer+1, 3 assembly shapes; d: {n_cli} command runs (one input with 250000 / 500001 N runs "
             "to cross the command's fixed 250000 buffer)"
+            f"; f: {n_hist} histories"
         ),
         exhaustive=False,
     )
